@@ -54,6 +54,9 @@ structure Variant where
   /-- the hanging binary arm and hang_binop_expression pass BinaryLHSExponent to the left
   operand of `^` (fixes of D1 and D28) -/
   hangLhsExp : Bool
+  /-- the hanging binary arm formats its right operand as an operand (UnaryOrBinary), not in
+  the Standard context (fix of D30) -/
+  hangRhsOperand : Bool
   deriving DecidableEq, Repr
 
 /-- format_expression_internal: the single-line path -/
@@ -111,7 +114,7 @@ def fmtH (v : Variant) (o : Oracle) (ctx : Ctx) : Expr → Expr
       then un op (paren e') else un op e'
   | bin op l r =>
       bin op (hangBin v o.l (if v.hangLhsExp ∧ op = .caret then .binLhsExp else .unOrBin) l)
-             (hangBin v o.r .std r)
+             (hangBin v o.r (if v.hangRhsOperand then .unOrBin else .std) r)
   | atom n => fmtS v ctx (atom n)
   | call n => fmtS v ctx (call n)
   | varargs => fmtS v ctx varargs
@@ -149,8 +152,8 @@ def stripCond : Expr → Expr
   | e => e
 
 /-- the code at the pinned commit -/
-def pinned : Variant := { ctxThroughDrop := false, hangMinusGuard := false, hangLhsExp := false }
-/-- the code after the `fix:` commits 52c63e2, bea172a, 093867a, and the hang_binop one -/
-def repaired : Variant := { ctxThroughDrop := true, hangMinusGuard := true, hangLhsExp := true }
+def pinned : Variant := { ctxThroughDrop := false, hangMinusGuard := false, hangLhsExp := false, hangRhsOperand := false }
+/-- the code after the `fix:` commits 52c63e2, bea172a, 093867a, 3a37827, aa62967 -/
+def repaired : Variant := { ctxThroughDrop := true, hangMinusGuard := true, hangLhsExp := true, hangRhsOperand := true }
 
 end StyluaModel.ParenRule
